@@ -884,7 +884,9 @@ func (c *FnCtx) execRange(st *State, x *ast.RangeStmt) []Out {
 			if elemVal == nil {
 				c.unsupportedf(x, "range value on this kind of range")
 			}
-			set(x.Value, elemVal(s, i), valT)
+			ev := elemVal(s, i)
+			c.extElemFacts(s, ev, valT)
+			set(x.Value, ev, valT)
 		}
 	}
 	if c.loopGhost == nil {
@@ -1088,7 +1090,11 @@ func (c *FnCtx) verify() (err error) {
 		}
 	}
 	for i := 0; i < sig.Params().Len(); i++ {
-		c.bindParam(st, sig.Params().At(i))
+		p := sig.Params().At(i)
+		c.bindParam(st, p)
+		if isExtPointer(p.Type()) && p.Name() != "" && p.Name() != "_" && !(c.contract != nil && c.contract.nilable(p.Name())) {
+			st.pc = append(st.pc, mkNot(mkEq(c.env[p.Name()], intLit(0))))
+		}
 	}
 	var results []*types.Var
 	for i := 0; i < sig.Results().Len(); i++ {
